@@ -329,6 +329,53 @@ func shellFacts(ws *packages.Package, f *facts) {
 		f.hdEntryInMainLoop = false
 	}
 
+	// helpers: functions of the package that re-arm a timer they are handed (Reset on a parameter of timer type), and the
+	// methods / functions the main function calls or starts (a clean-up moved into a method is still the main loop's)
+	resetHelpers := map[string]bool{}
+	for _, fd := range funcs {
+		if fd.Type.Params == nil {
+			continue
+		}
+		timerParams := map[string]bool{}
+		for _, fld := range fd.Type.Params.List {
+			if isTimer(info.TypeOf(fld.Type)) {
+				for _, nm := range fld.Names {
+					timerParams[nm.Name] = true
+				}
+			}
+		}
+		if len(timerParams) == 0 {
+			continue
+		}
+		ast.Inspect(fd.Body, func(m ast.Node) bool {
+			if c, ok := m.(*ast.CallExpr); ok {
+				if se, ok := c.Fun.(*ast.SelectorExpr); ok && se.Sel.Name == "Reset" {
+					if id, ok := se.X.(*ast.Ident); ok && timerParams[id.Name] {
+						resetHelpers[fd.Name.Name] = true
+					}
+				}
+			}
+			return true
+		})
+	}
+	calledFromMain := map[string]bool{}
+	for _, fd := range funcs {
+		if fd.Name.Name != mainName || !recvIs(fd) {
+			continue
+		}
+		ast.Inspect(fd.Body, func(m ast.Node) bool {
+			if c, ok := m.(*ast.CallExpr); ok {
+				switch fn := c.Fun.(type) {
+				case *ast.SelectorExpr:
+					calledFromMain[fn.Sel.Name] = true
+				case *ast.Ident:
+					calledFromMain[fn.Name] = true
+				}
+			}
+			return true
+		})
+	}
+
 	// 4..6. shapes inside the main function and the sender loop
 	for _, fd := range funcs {
 		if !recvIs(fd) {
@@ -361,11 +408,26 @@ func shellFacts(ws *packages.Package, f *facts) {
 										if se, ok := c.Fun.(*ast.SelectorExpr); ok && se.Sel.Name == "Reset" && isTimer(info.TypeOf(se.X)) {
 											f.idleRearmed = true
 										}
+										// … or hands the timer to a helper that re-arms it
+										hn := ""
+										switch fn := c.Fun.(type) {
+										case *ast.SelectorExpr:
+											hn = fn.Sel.Name
+										case *ast.Ident:
+											hn = fn.Name
+										}
+										if resetHelpers[hn] {
+											for _, a := range c.Args {
+												if isTimer(info.TypeOf(a)) {
+													f.idleRearmed = true
+												}
+											}
+										}
 									}
 									return true
 								})
 							}
-						} else if fd.Name.Name == mainName {
+						} else if fd.Name.Name == mainName || calledFromMain[fd.Name.Name] {
 							f.queueDiscarded = true
 						}
 					}
